@@ -60,6 +60,8 @@ struct world
     bool syscrash = false;   // crash points are system calls of SQLite's VFS instead of statements (with flag crash)
     bool locks = false;   // lock sweep (library on disk): every call is first attempted while another connection holds a lock
     bool u8 = false;   // name tokens of the model are given to the library as names with multi-byte UTF-8 characters
+    bool wal = false;  // (library on disk) the database files were switched to WAL journal mode by another client before the history
+    bool like = false; // (with u8) the names are LIKE patterns / case variants of each other instead
     bool dead = false;  // rest of this execution is skipped
     int64_t max_id_seen = 0, max_tid_seen = 0;
     int ntracks_created = 0;
@@ -78,10 +80,23 @@ const std::vector<std::pair<std::string, std::string>>& u8_table()
         {"e", "e\xc3\xb8"}, {"f", "\xe6\x97\xa5" "f"}, {"g", "g\xc3\x9f"}, {"h", "\xd0\x96h"}};
     return t;
 }
+// Flag "nameset": "like" - the same translation with names that are SQL LIKE patterns of each other (`_` and `%` are ordinary
+// characters of a crate name) and names that differ in letter case only: look-ups and duplicate checks must compare names exactly.
+// (No replacement text is part of another one, and none contains a token.)
+const std::vector<std::pair<std::string, std::string>>& like_table()
+{
+    static const std::vector<std::pair<std::string, std::string>> t = {
+        {"a", "x_z"}, {"b", "xyz"}, {"c", "%%"}, {"d", "xYz"}, {"e", "X_Z"}, {"f", "x%"}, {"g", "_yz"}, {"h", "XYZ"}};
+    return t;
+}
+const std::vector<std::pair<std::string, std::string>>& name_table(const world& w)
+{
+    return w.like ? like_table() : u8_table();
+}
 std::string enc_name(const world& w, const std::string& tok)
 {
     if (w.u8)
-        for (auto& [t, r] : u8_table())
+        for (auto& [t, r] : name_table(w))
             if (t == tok)
                 return r;
     return tok;
@@ -90,7 +105,7 @@ std::string dec_text(const world& w, std::string s)
 {
     if (!w.u8)
         return s;
-    for (auto& [t, r] : u8_table())
+    for (auto& [t, r] : name_table(w))
         for (size_t pos = 0; (pos = s.find(r, pos)) != std::string::npos; pos += t.size())
             s.replace(pos, r.size(), t);
     return s;
@@ -340,7 +355,13 @@ std::string file_digest(const world& w)
     uint64_t h = 1469598103934665603ULL;
     std::vector<std::string> files;
     for (auto& e : fs::recursive_directory_iterator(w.dir))
-        files.push_back(e.path().string() + (e.is_directory() ? "/" : ""));
+    {
+        // (the shared-memory index of a WAL-mode database is scratch space of the connections, not stored content)
+        std::string p = e.path().string();
+        if (p.size() > 4 && p.compare(p.size() - 4, 4, "-shm") == 0)
+            continue;
+        files.push_back(p + (e.is_directory() ? "/" : ""));
+    }
     std::sort(files.begin(), files.end());
     for (auto& f : files)
     {
@@ -372,6 +393,8 @@ void start_world(world& w, const json& r)
     w.sweep = r.value("sweep", false);
     w.noobs = r.value("noobs", false);
     w.u8 = r.value("u8", false);
+    if (r.value("nameset", std::string()) == "like")
+        w.u8 = w.like = true;
     w.locks = r.value("locks", false) && r.value("mode", "mem") == "disk";
     w.crash = (r.value("crash", false) || r.value("syscrash", false)) && r.value("mode", "mem") == "disk";
     w.syscrash = r.value("syscrash", false);
@@ -383,6 +406,27 @@ void start_world(world& w, const json& r)
         w.dir = g_tmp_root + "/lib" + std::to_string(++g_dir_counter);
         fs::remove_all(w.dir);
         w.db = dj::engine::create_database(w.dir, w.schema);
+        if (r.value("wal", false))
+        {
+            // another SQLite client (as Engine DJ itself does) switches every database file of the library to WAL journal mode and
+            // closes it cleanly; the library is then loaded from that directory.  The journal mode is a property of the file.
+            w.wal = true;
+            w.db.reset();
+            shim::reset_dbs();
+            std::vector<std::string> dbs;
+            for (auto& e : fs::recursive_directory_iterator(w.dir))
+                if (e.is_regular_file() && e.path().extension() == ".db")
+                    dbs.push_back(e.path().string());
+            for (auto& f : dbs)
+            {
+                sqlite3* c = nullptr;
+                if (sqlite3_open_v2(f.c_str(), &c, SQLITE_OPEN_READWRITE, nullptr) == SQLITE_OK)
+                    sqlite3_exec(c, "PRAGMA journal_mode = WAL", nullptr, nullptr, nullptr);
+                sqlite3_close(c);
+            }
+            shim::reset_dbs();
+            w.db = dj::engine::load_database(w.dir);
+        }
     }
     else
     {
@@ -611,11 +655,28 @@ void do_reopen(world& w, json& rec)
     std::string f0 = w.mode == "disk" ? file_digest(w) : std::string();
     std::vector<int64_t> cids, tids;
     close_handles(w, cids, tids);
+    if (w.wal)
+    {
+        // closing the last connection of a WAL-mode database checkpoints what the history wrote: the files are compared
+        // between two closed states with one load + close in between (load and close are the observers judged here)
+        f0 = file_digest(w);
+        json scratch;
+        std::vector<int64_t> c2 = cids, t2 = tids;
+        open_handles(w, cids, tids, scratch);
+        if (!w.dead)
+        {
+            std::vector<int64_t> c3, t3;
+            close_handles(w, c3, t3);
+            rec["cfiles"] = file_digest(w) == f0;
+        }
+        cids = c2;
+        tids = t2;
+    }
     open_handles(w, cids, tids, rec);
     if (!w.dead)
     {
         rec["csame"] = vh::raw_reader{w.conn}.digest() == d0;
-        if (w.mode == "disk")
+        if (w.mode == "disk" && !w.wal)
             rec["cfiles"] = file_digest(w) == f0;
     }
 }
@@ -754,6 +815,23 @@ void exec_op(world& w, const json& op)
             rec["c"] = c.id();
             rec["t"] = t.id();
             f = [&c, &t] { c.add_track(t); };
+        }
+        else if (name == "add_tracks")
+        {
+            // the bulk entry point crate::add_tracks(first, last) with a range that may name a track more than once
+            auto& c = C(w, op, "c");
+            rec["c"] = c.id();
+            auto v = std::make_shared<std::vector<dj::track>>();
+            json ids = json::array();
+            for (auto& k : op.at("ts"))
+            {
+                json one = {{"t", k}};
+                auto& t = T(w, one, "t");
+                v->push_back(t);
+                ids.push_back(t.id());
+            }
+            rec["ts"] = ids;
+            f = [&c, v] { c.add_tracks(v->begin(), v->end()); };
         }
         else if (name == "remove_track_from")
         {
@@ -1184,6 +1262,9 @@ void exec_op(world& w, const json& op)
             if (fired)
                 r["dsame"] = vh::raw_reader{w.conn}.digest() == d0;
         }
+        // no call - completed, refused or failed - returns with a transaction still open on its connection
+        if (w.conn)
+            r["ac"] = sqlite3_get_autocommit(w.conn) != 0;
         if (w.want_stmts && !fired)   // (complete executions only: the discipline is judged on whole calls)
         {
             json st = json::array();
